@@ -229,7 +229,7 @@ theorem frameB_step {st st' : St} {x : Step} (hs : step st x = some st')
   | linkSuspend s b =>
     simp only [step] at hs
     split at hs
-    · cases hs; exact frameB_send _ _
+    · cases hs; frameB_tac
     · cases hs
   | linkDisconnect s =>
     simp only [step] at hs
@@ -1260,5 +1260,349 @@ theorem invT_run {st st' : St} {tr : List Step} (hs : Gate.run st tr = some st')
     split at hs
     · rename_i st1 h1; exact ih hs (invT_step h1 h)
     · cases hs
+
+
+theorem mem_send_rootq {st : St} {x y : Cmd} (h : y ∈ (st.send x).rootq) : y ∈ st.rootq ∨ y = x := by
+  unfold St.send at h
+  split at h
+  · exact Or.inl h
+  · simp only [List.mem_append, List.mem_singleton] at h; exact h
+
+/-- Link-side bookkeeping: the gate only ever unsubscribes / suspends a slot because its link asked. -/
+structure InvW (st : St) : Prop where
+  unsub_disc : ∀ s, (st.chans s).unsubbed = true → (st.chans s).disc = true
+  q_unsub : ∀ s, Cmd.unsubscribe s ∈ st.rootq → (st.chans s).disc = true
+  susp_sent : ∀ s, (st.chans s).susp = true → (st.chans s).suspSent = true
+  q_susp : ∀ s, Cmd.suspension s true ∈ st.rootq → (st.chans s).suspSent = true
+  q_sub : ∀ s, Cmd.subscribe s true ∈ st.rootq → (st.chans s).suspSent = true
+
+theorem invW_init (cap : Nat) : InvW (init cap) := by
+  refine ⟨?_, ?_, ?_, ?_, ?_⟩ <;> intro s h <;> simp [init] at h
+
+structure FrameW (st st' : St) : Prop where
+  disc : ∀ s, (st.chans s).disc = true → (st'.chans s).disc = true
+  sent : ∀ s, (st.chans s).suspSent = true → (st'.chans s).suspSent = true
+  unsubbed : ∀ s, (st'.chans s).unsubbed = (st.chans s).unsubbed
+  susp : ∀ s, (st'.chans s).susp = (st.chans s).susp
+  rootq : ∀ x, x ∈ st'.rootq → x ∈ st.rootq ∨
+    ((∀ s, x ≠ .unsubscribe s) ∧ (∀ s, x ≠ .suspension s true) ∧ (∀ s, x ≠ .subscribe s true))
+
+theorem InvW.frame {st st' : St} (f : FrameW st st') (h : InvW st) : InvW st' := by
+  refine ⟨?_, ?_, ?_, ?_, ?_⟩
+  · intro s hu; rw [f.unsubbed] at hu; exact f.disc s (h.unsub_disc s hu)
+  · intro s hm
+    rcases f.rootq _ hm with g | ⟨g, _, _⟩
+    · exact f.disc s (h.q_unsub s g)
+    · exact absurd rfl (g s)
+  · intro s hu; rw [f.susp] at hu; exact f.sent s (h.susp_sent s hu)
+  · intro s hm
+    rcases f.rootq _ hm with g | ⟨_, g, _⟩
+    · exact f.sent s (h.q_susp s g)
+    · exact absurd rfl (g s)
+  · intro s hm
+    rcases f.rootq _ hm with g | ⟨_, _, g⟩
+    · exact f.sent s (h.q_sub s g)
+    · exact absurd rfl (g s)
+
+macro "frameW_tac" : tactic => `(tactic|
+  (refine ⟨?_, ?_, ?_, ?_, ?_⟩ <;> intros <;>
+    simp only [send_chans, upd_apply] at * <;> (try split) <;> simp_all))
+
+theorem frameW_send_other {st : St} {x : Cmd} (h1 : ∀ s, x ≠ .unsubscribe s) (h2 : ∀ s, x ≠ .suspension s true)
+    (h3 : ∀ s, x ≠ .subscribe s true) : ∀ y, y ∈ (st.send x).rootq → y ∈ st.rootq ∨
+    ((∀ s, y ≠ .unsubscribe s) ∧ (∀ s, y ≠ .suspension s true) ∧ (∀ s, y ≠ .subscribe s true)) := by
+  intro y hy
+  rcases mem_send_rootq hy with g | g
+  · exact Or.inl g
+  · subst g; exact Or.inr ⟨h1, h2, h3⟩
+
+
+theorem invW_rootHandle {st : St} (x : Cmd) (q : List Cmd) (hq : st.rootq = x :: q) (h : InvW st) :
+    InvW (rootHandle { st with rootq := q } x) := by
+  have hsub : ∀ y, y ∈ q → y ∈ st.rootq := fun y hy => by rw [hq]; exact List.mem_cons_of_mem _ hy
+  have hx : x ∈ st.rootq := by rw [hq]; exact List.mem_cons_self
+  cases x with
+  | subscribe s b =>
+    simp only [rootHandle]
+    split
+    · rename_i hb; subst hb
+      have hs := h.q_sub s hx
+      refine ⟨?_, ?_, ?_, ?_, ?_⟩
+      · intro s' hu; simp only [upd_apply] at hu ⊢; split <;> simp_all [h.unsub_disc]
+      · intro s' hm; simp only [upd_apply]; have := h.q_unsub s' (hsub _ hm); split <;> simp_all
+      · intro s' hu; simp only [upd_apply] at hu ⊢
+        split
+        · simp_all
+        · rename_i e; simp only [e, if_false] at hu; exact h.susp_sent s' hu
+      · intro s' hm; simp only [upd_apply]; have := h.q_susp s' (hsub _ hm); split <;> simp_all
+      · intro s' hm; simp only [upd_apply]; have := h.q_sub s' (hsub _ hm); split <;> simp_all
+    · exact ⟨h.unsub_disc, fun s' hm => h.q_unsub s' (hsub _ hm), h.susp_sent,
+        fun s' hm => h.q_susp s' (hsub _ hm), fun s' hm => h.q_sub s' (hsub _ hm)⟩
+  | unsubscribe s =>
+    simp only [rootHandle]
+    have hs := h.q_unsub s hx
+    refine ⟨?_, ?_, ?_, ?_, ?_⟩
+    · intro s' hu; simp only [upd_apply] at hu ⊢
+      split
+      · simp_all
+      · rename_i e; simp only [e, if_false] at hu; exact h.unsub_disc s' hu
+    · intro s' hm; simp only [upd_apply]; have := h.q_unsub s' (hsub _ hm); split <;> simp_all
+    · intro s' hu; simp only [upd_apply] at hu ⊢
+      split
+      · rename_i e; subst e; simp only [if_true] at hu; exact h.susp_sent _ hu
+      · rename_i e; simp only [e, if_false] at hu; exact h.susp_sent s' hu
+    · intro s' hm; simp only [upd_apply]; have := h.q_susp s' (hsub _ hm); split <;> simp_all
+    · intro s' hm; simp only [upd_apply]; have := h.q_sub s' (hsub _ hm); split <;> simp_all
+  | suspension s b =>
+    cases b
+    · -- unsuspend
+      simp only [rootHandle]
+      split
+      · refine ⟨?_, ?_, ?_, ?_, ?_⟩
+        · intro s' hu; simp only [upd_apply] at hu ⊢
+          split
+          · rename_i e; subst e; simp only [if_true] at hu; exact h.unsub_disc _ hu
+          · rename_i e; simp only [e, if_false] at hu; exact h.unsub_disc s' hu
+        · intro s' hm; simp only [upd_apply]; have := h.q_unsub s' (hsub _ hm); split <;> simp_all
+        · intro s' hu; simp only [upd_apply] at hu ⊢
+          split
+          · rename_i e; simp [e] at hu
+          · rename_i e; simp only [e, if_false] at hu; exact h.susp_sent s' hu
+        · intro s' hm; simp only [upd_apply]; have := h.q_susp s' (hsub _ hm); split <;> simp_all
+        · intro s' hm; simp only [upd_apply]; have := h.q_sub s' (hsub _ hm); split <;> simp_all
+      · exact ⟨h.unsub_disc, fun s' hm => h.q_unsub s' (hsub _ hm), h.susp_sent,
+          fun s' hm => h.q_susp s' (hsub _ hm), fun s' hm => h.q_sub s' (hsub _ hm)⟩
+    · -- suspend
+      have hs := h.q_susp s hx
+      simp only [rootHandle]
+      split <;>
+      · refine ⟨?_, ?_, ?_, ?_, ?_⟩
+        · intro s' hu; simp only [upd_apply] at hu ⊢
+          split
+          · rename_i e; subst e; simp only [if_true] at hu; exact h.unsub_disc _ hu
+          · rename_i e; simp only [e, if_false] at hu; exact h.unsub_disc s' hu
+        · intro s' hm; simp only [upd_apply]; have := h.q_unsub s' (hsub _ hm); split <;> simp_all
+        · intro s' hu; simp only [upd_apply] at hu ⊢
+          split
+          · simp_all
+          · rename_i e; simp only [e, if_false] at hu; exact h.susp_sent s' hu
+        · intro s' hm; simp only [upd_apply]; have := h.q_susp s' (hsub _ hm); split <;> simp_all
+        · intro s' hm; simp only [upd_apply]; have := h.q_sub s' (hsub _ hm); split <;> simp_all
+  | attach c =>
+    exact ⟨h.unsub_disc, fun s' hm => h.q_unsub s' (hsub _ hm), h.susp_sent,
+      fun s' hm => h.q_susp s' (hsub _ hm), fun s' hm => h.q_sub s' (hsub _ hm)⟩
+  | detach c =>
+    exact ⟨h.unsub_disc, fun s' hm => h.q_unsub s' (hsub _ hm), h.susp_sent,
+      fun s' hm => h.q_susp s' (hsub _ hm), fun s' hm => h.q_sub s' (hsub _ hm)⟩
+  | terminate =>
+    exact ⟨h.unsub_disc, fun s' hm => h.q_unsub s' (hsub _ hm), h.susp_sent,
+      fun s' hm => h.q_susp s' (hsub _ hm), fun s' hm => h.q_sub s' (hsub _ hm)⟩
+  | followSub s =>
+    exact ⟨h.unsub_disc, fun s' hm => h.q_unsub s' (hsub _ hm), h.susp_sent,
+      fun s' hm => h.q_susp s' (hsub _ hm), fun s' hm => h.q_sub s' (hsub _ hm)⟩
+  | followUnsub s =>
+    exact ⟨h.unsub_disc, fun s' hm => h.q_unsub s' (hsub _ hm), h.susp_sent,
+      fun s' hm => h.q_susp s' (hsub _ hm), fun s' hm => h.q_sub s' (hsub _ hm)⟩
+
+theorem frameW_cloneHandle (st : St) (c : Pub) (x : Cmd) : FrameW st (cloneHandle st c x) := by
+  cases x <;> simp only [cloneHandle] <;>
+    exact ⟨fun _ h => h, fun _ h => h, fun _ => rfl, fun _ => rfl, fun _ h => Or.inl h⟩
+
+theorem FrameW.trans {a b c : St} (h1 : FrameW a b) (h2 : FrameW b c) : FrameW a c := by
+  refine ⟨fun s h => h2.disc s (h1.disc s h), fun s h => h2.sent s (h1.sent s h),
+    fun s => (h2.unsubbed s).trans (h1.unsubbed s), fun s => (h2.susp s).trans (h1.susp s), ?_⟩
+  intro x hx
+  rcases h2.rootq x hx with g | g
+  · exact h1.rootq x g
+  · exact Or.inr g
+
+theorem invW_step {st st' : St} {x : Step} (hs : step st x = some st') (h : InvW st) : InvW st' := by
+  cases x with
+  | pubBegin p =>
+    simp only [step] at hs
+    split at hs
+    · cases hs; exact ⟨h.unsub_disc, h.q_unsub, h.susp_sent, h.q_susp, h.q_sub⟩
+    · cases hs
+  | pubDeliver p s =>
+    simp only [step] at hs
+    split at hs
+    · cases hs
+    · split at hs
+      · split at hs
+        · split at hs
+          · split at hs
+            · cases hs; apply h.frame; frameW_tac
+            · cases hs
+          · cases hs; apply h.frame; frameW_tac
+        · cases hs; exact ⟨h.unsub_disc, h.q_unsub, h.susp_sent, h.q_susp, h.q_sub⟩
+      · cases hs
+  | pubEnd p =>
+    simp only [step] at hs
+    split at hs
+    · cases hs; exact ⟨h.unsub_disc, h.q_unsub, h.susp_sent, h.q_susp, h.q_sub⟩
+    · cases hs
+  | linkSubscribe s k b =>
+    simp only [step] at hs
+    split at hs
+    · cases hs
+      refine ⟨?_, ?_, ?_, ?_, ?_⟩
+      · intro s' hu; simp only [upd_apply] at hu ⊢; split <;> simp_all [h.unsub_disc]
+      · intro s' hm
+        rcases mem_send_rootq hm with g | g
+        · have := h.q_unsub s' g; simp only [upd_apply]; split <;> simp_all
+        · cases g
+      · intro s' hu; simp only [upd_apply] at hu ⊢
+        split
+        · rename_i e; subst e; simp only [if_true] at hu; simp [h.susp_sent _ hu]
+        · rename_i e; simp only [e, if_false] at hu; exact h.susp_sent s' hu
+      · intro s' hm
+        rcases mem_send_rootq hm with g | g
+        · have := h.q_susp s' g; simp only [upd_apply]; split <;> simp_all
+        · cases g
+      · intro s' hm
+        rcases mem_send_rootq hm with g | g
+        · have := h.q_sub s' g; simp only [upd_apply]; split <;> simp_all
+        · simp only [Cmd.subscribe.injEq] at g
+          obtain ⟨rfl, rfl⟩ := g
+          simp
+    · cases hs
+  | linkCancel s =>
+    simp only [step] at hs
+    split at hs
+    · cases hs; apply h.frame; frameW_tac
+    · cases hs
+  | linkSuspend s b =>
+    simp only [step] at hs
+    split at hs
+    · cases hs
+      refine ⟨?_, ?_, ?_, ?_, ?_⟩
+      · intro s' hu; simp only [upd_apply] at hu ⊢; split <;> simp_all [h.unsub_disc]
+      · intro s' hm
+        rcases mem_send_rootq hm with g | g
+        · have := h.q_unsub s' g; simp only [upd_apply]; split <;> simp_all
+        · cases g
+      · intro s' hu; simp only [upd_apply] at hu ⊢
+        split
+        · rename_i e; subst e; simp only [if_true] at hu; simp [h.susp_sent _ hu]
+        · rename_i e; simp only [e, if_false] at hu; exact h.susp_sent s' hu
+      · intro s' hm
+        rcases mem_send_rootq hm with g | g
+        · have := h.q_susp s' g; simp only [upd_apply]; split <;> simp_all
+        · simp only [Cmd.suspension.injEq] at g
+          obtain ⟨rfl, rfl⟩ := g
+          simp
+      · intro s' hm
+        rcases mem_send_rootq hm with g | g
+        · have := h.q_sub s' g; simp only [upd_apply]; split <;> simp_all
+        · cases g
+    · cases hs
+  | linkDisconnect s =>
+    simp only [step] at hs
+    split at hs
+    · cases hs
+      refine ⟨?_, ?_, ?_, ?_, ?_⟩
+      · intro s' hu; simp only [upd_apply] at hu ⊢; split <;> simp_all [h.unsub_disc]
+      · intro s' hm
+        rcases mem_send_rootq hm with g | g
+        · have := h.q_unsub s' g; simp only [upd_apply]; split <;> simp_all
+        · simp only [Cmd.unsubscribe.injEq] at g; subst g; simp
+      · intro s' hu; simp only [upd_apply] at hu ⊢
+        split
+        · rename_i e; subst e; simp only [if_true] at hu; exact h.susp_sent _ hu
+        · rename_i e; simp only [e, if_false] at hu; exact h.susp_sent s' hu
+      · intro s' hm
+        rcases mem_send_rootq hm with g | g
+        · have := h.q_susp s' g; simp only [upd_apply]; split <;> simp_all
+        · cases g
+      · intro s' hm
+        rcases mem_send_rootq hm with g | g
+        · have := h.q_sub s' g; simp only [upd_apply]; split <;> simp_all
+        · cases g
+    · cases hs
+  | linkClose s =>
+    simp only [step] at hs
+    split at hs
+    · cases hs; apply h.frame; frameW_tac
+    · cases hs
+  | linkRecv s =>
+    simp only [step] at hs
+    split at hs
+    · cases hs; apply h.frame; frameW_tac
+    · cases hs
+  | linkGone s =>
+    simp only [step] at hs
+    split at hs
+    · cases hs; apply h.frame; frameW_tac
+    · cases hs
+  | agentTerminate =>
+    simp only [step] at hs
+    cases hs
+    apply h.frame
+    exact ⟨fun _ g => by simpa using g, fun _ g => by simpa using g, fun _ => by simp, fun _ => by simp,
+      frameW_send_other (by intros; simp) (by intros; simp) (by intros; simp)⟩
+  | rootProc =>
+    simp only [step] at hs
+    split at hs
+    · cases hs
+    · split at hs
+      · cases hs
+      · rename_i x q hq
+        cases hs
+        exact invW_rootHandle x q hq h
+  | rootRespond =>
+    simp only [step] at hs
+    split at hs
+    · cases hs
+    · split at hs
+      · cases hs
+        split <;> exact ⟨h.unsub_disc, h.q_unsub, h.susp_sent, h.q_susp, h.q_sub⟩
+      · cases hs; apply h.frame; frameW_tac
+  | rootDrop =>
+    simp only [step] at hs
+    split at hs
+    · cases hs
+      exact ⟨h.unsub_disc, by intro s hm; simp at hm, h.susp_sent, by intro s hm; simp at hm, by intro s hm; simp at hm⟩
+    · cases hs
+  | cloneNew c =>
+    simp only [step] at hs
+    split at hs
+    · cases hs
+      apply h.frame
+      exact ⟨fun _ g => by simpa using g, fun _ g => by simpa using g, fun _ => by simp, fun _ => by simp,
+        frameW_send_other (by intros; simp) (by intros; simp) (by intros; simp)⟩
+    · cases hs
+  | cloneProc c =>
+    simp only [step] at hs
+    split at hs
+    · split at hs
+      · cases hs
+      · cases hs
+        apply h.frame
+        refine FrameW.trans ?_ (frameW_cloneHandle _ _ _)
+        exact ⟨fun _ g => g, fun _ g => g, fun _ => rfl, fun _ => rfl, fun _ g => Or.inl g⟩
+    · cases hs
+  | cloneClosed c =>
+    simp only [step] at hs
+    split at hs
+    · cases hs; exact ⟨h.unsub_disc, h.q_unsub, h.susp_sent, h.q_susp, h.q_sub⟩
+    · cases hs
+  | cloneDrop c =>
+    simp only [step] at hs
+    split at hs
+    · cases hs
+      apply h.frame
+      exact ⟨fun _ g => by simpa using g, fun _ g => by simpa using g, fun _ => by simp, fun _ => by simp,
+        frameW_send_other (by intros; simp) (by intros; simp) (by intros; simp)⟩
+    · cases hs
+
+theorem invW_run {st st' : St} {tr : List Step} (hs : Gate.run st tr = some st') (h : InvW st) : InvW st' := by
+  induction tr generalizing st with
+  | nil => simp only [Gate.run] at hs; cases hs; exact h
+  | cons x xs ih =>
+    simp only [Gate.run] at hs
+    split at hs
+    · rename_i st1 h1; exact ih hs (invW_step h1 h)
+    · cases hs
+
 
 end Rotonda.Gate
